@@ -28,7 +28,7 @@ MC = {
 }
 
 
-MODEL_MUTANTS = ["BugPtr", "BugWait", "BugListen", "ackstale", "ackany", "clearstale", "sendstale", "noclearattach", "bumpnoncur", "wantleak", "listensize", "lexitnonce"]
+MODEL_MUTANTS = ["BugPtr", "BugWait", "BugListen", "ackstale", "ackany", "clearstale", "sendstale", "noclearattach", "bumpnoncur", "wantleak", "listensize", "lexitnonce", "nobumpself"]
 
 
 def directed(ctx):
@@ -73,7 +73,7 @@ def run(ctx):
                        "design model: SignalingRelay.tla (relative epochs, exact wait-channel abstraction)"]
     # 1. design-level model checking
     for mc in MC[tier][prop]:
-        r = ctx.tlc(mc, timeout=1500)
+        r = ctx.tlc(mc, timeout=1500 if tier == "quick" else 3600)
         ctx.notes.append("%s: %d distinct states, %d generated, depth %d, %.0fs" % (mc, r.distinct, r.generated, r.depth, r.wall))
     # 2. behaviours from TLC (three generator configs: session focus, listen focus, mixed)
     per = 5 if tier == "quick" else 60
